@@ -213,7 +213,11 @@ var wildFragments = []string{
 
 func gen(t *rapid.T) Case {
 	files := corpus.Files(2000)
-	switch k := rapid.IntRange(0, 9).Draw(t, "kind"); {
+	switch k := rapid.IntRange(0, 13).Draw(t, "kind"); {
+	case k == 10 || k == 11:
+		return Case{Src: []byte(genHostileOperands(t)), Kind: "hostile-operands"}
+	case k == 12 || k == 13:
+		return Case{Src: []byte(genString(t)), Kind: "string-soup"}
 	case k < 5:
 		f := files[rapid.IntRange(0, len(files)-1).Draw(t, "file")]
 		return Case{Src: corpus.Mutate(t, f.Data, rapid.IntRange(0, 3).Draw(t, "nmut"), files), Kind: "corpus-mutation"}
